@@ -94,10 +94,17 @@ def invertible(spec):
     return True
 
 
-def gen_notif(rng, tasks):
+def gen_notif(rng, tasks, shared=None):
     if rng.random() < 0.2:
         delay = rng.choice([0, 0.5, 1, 2, 3])
         return {'k': 'delay', 'd': delay} if delay else {'k': 'instant'}
+    if shared is not None and rng.random() < 0.35:
+        # the very same notification object is used by several blocks / waits of the program
+        if len(shared) < 3 and (not shared or rng.random() < 0.5):
+            spec = gen_cond(rng, tasks)
+            spec['share'] = 'n%d' % len(shared)
+            shared.append(spec)
+        return dict(rng.choice(shared))
     return gen_cond(rng, tasks)
 
 
@@ -107,8 +114,8 @@ def waits(rng, ids, count):
             for _ in range(count)]
 
 
-def gen_block(rng, ids, tasks, depth):
-    step = {'op': 'scope', 'id': ids('b'), 'n': gen_notif(rng, tasks), 'catch': False,
+def gen_block(rng, ids, tasks, depth, shared=None):
+    step = {'op': 'scope', 'id': ids('b'), 'n': gen_notif(rng, tasks, shared), 'catch': False,
             'children': [], 'body': []}
     for _ in range(rng.choice([0, 0, 1, 2, 3])):
         child = {'name': ids('t'), 'volatile': rng.random() < 0.25,
@@ -118,9 +125,15 @@ def gen_block(rng, ids, tasks, depth):
         step['children'].append(child)
     body = waits(rng, ids, rng.randint(0, 3))
     if depth < 2 and rng.random() < 0.3:
-        body.insert(rng.randint(0, len(body)), gen_block(rng, ids, tasks, depth + 1))
+        body.insert(rng.randint(0, len(body)), gen_block(rng, ids, tasks, depth + 1, shared))
     if rng.random() < 0.1:
         body.append({'op': 'wait', 'n': {'k': 'eternity'}, 'id': ids('w')})
+    if rng.random() < 0.12:
+        # the body fails at some point (possibly before its first suspension); caught outside
+        body.insert(rng.randint(0, len(body)),
+                    {'op': 'raise', 'kind': 'err', 'tag': ids('e'), 'id': ids('x')})
+        step['body'] = body
+        return {'op': 'try', 'id': ids('y'), 'body': [step]}
     step['body'] = body
     return step
 
@@ -164,16 +177,39 @@ def build(case):
             {'op': 'scope', 'id': ids('hs'), 'n': None, 'catch': False, 'children': children,
              'body': []}]})
     roots.append({'name': 'driver', 'steps': driver})
-    n_subjects = rng.choice([1, 1, 2])
+    shared = []
+    n_subjects = rng.choice([1, 1, 2, 3])
     for number in range(n_subjects):
         steps = []
         entry = rng.choice([0, 0, 0.5, 1, 1.5, 2, 3])
         steps.append({'op': 'wait', 'n': {'k': 'ge', 't': entry} if entry else {'k': 'instant'},
                       'id': ids('w')})
-        steps.append(gen_block(rng, ids, tasks, 0))
+        if rng.random() < 0.15:
+            # re-use scenario: the very same connective guards two attempts; the first is left
+            # before it ever suspends (its body fails at once, or an outer block that already
+            # fired abandons it), the second must still be ended by the connective
+            guard = {'k': rng.choice(['and', 'or']),
+                     'a': [gen_cond(rng, tasks, 2) for _ in range(rng.randint(2, 3))],
+                     'share': 'g%d' % number}
+            early = {'op': 'scope', 'id': ids('b'), 'n': dict(guard), 'catch': False,
+                     'children': [], 'body': [{'op': 'raise', 'kind': 'err', 'tag': ids('e'),
+                                               'id': ids('x')}]}
+            if rng.random() < 0.5:
+                steps.append({'op': 'try', 'id': ids('y'), 'body': [early]})
+            else:
+                early['body'] = waits(rng, ids, 1)
+                steps.append({'op': 'scope', 'id': ids('b'), 'n': {'k': 'instant'},
+                              'catch': False, 'children': [], 'body': [early]})
+            steps += waits(rng, ids, rng.randint(0, 2))
+            steps.append({'op': 'scope', 'id': ids('b'), 'n': dict(guard), 'catch': False,
+                          'children': [], 'body': [
+                              {'op': 'wait', 'n': {'k': 'delay', 'd': rng.choice([3, 6, 10])},
+                               'id': ids('w')}]})
+            steps += waits(rng, ids, 1)
+        steps.append(gen_block(rng, ids, tasks, 0, shared))
         steps += waits(rng, ids, rng.randint(1, 3))
-        if rng.random() < 0.3:
-            steps.append(gen_block(rng, ids, tasks, 1))
+        for _ in range(rng.choice([0, 0, 1, 1, 2])):
+            steps.append(gen_block(rng, ids, tasks, 1, shared))
             steps += waits(rng, ids, 1)
         roots.append({'name': 'subject%d' % number, 'steps': steps})
     program = {'objects': objects, 'roots': roots, 'start': 0, 'till': None}
@@ -185,7 +221,9 @@ def blocks_of(program):
 
     def walk(steps, owner):
         for step in steps:
-            if step['op'] == 'scope':
+            if step['op'] == 'try':
+                walk(step['body'], owner)
+            elif step['op'] == 'scope':
                 if owner.startswith('subject'):
                     found.append((step['id'], owner))
                 walk(step['body'], owner)
@@ -200,7 +238,9 @@ def replace_notif(program, sid):
 
     def walk(steps):
         for step in steps:
-            if step['op'] == 'scope':
+            if step['op'] == 'try':
+                walk(step['body'])
+            elif step['op'] == 'scope':
                 if step['id'] == sid:
                     step['n'] = {'k': 'eternity'}
                 walk(step['body'])
@@ -214,7 +254,7 @@ def find_step(program, sid):
         for step in steps:
             if step.get('id') == sid:
                 return step
-            if step['op'] == 'scope':
+            if step['op'] in ('scope', 'try'):
                 hit = walk(step['body'])
                 if hit is not None:
                     return hit
@@ -304,8 +344,22 @@ def judge_until(case, program, changes):
         if only != 'ambiguous' and (only is None or (completion is not None and completion < only)):
             stats['completed_first'] += 1
             # n has no further effect: everything the owner does afterwards equals the reference
-            mine = [ev for ev in sess.events if ev[1] == owner]
-            theirs = [ev for ev in rsess.events if ev[1] == owner]
+            def projection(events):
+                # which of two blocks with the same deadline is struck first is a matter of
+                # order inside the time step: a block counts as "left", however it was left
+                result = []
+                for ev in events:
+                    if ev[1] != owner or ev[2] in ('body-done', 'scope-left'):
+                        continue
+                    if ev[2] in ('end', 'exc') and ev[3] == 'scope':
+                        result.append((ev[0], 'left', ev[4]))
+                    elif ev[2] == 'exc' and ev[-1] in ('CancelScope',):
+                        result.append((ev[0], 'abandoned', ev[4]))
+                    else:
+                        result.append(ev)
+                return result
+            mine = projection(sess.events)
+            theirs = projection(rsess.events)
             if mine != theirs:
                 diff = next((pair for pair in zip(mine, theirs) if pair[0] != pair[1]),
                             (len(mine), len(theirs)))
